@@ -35,9 +35,13 @@ Plain == {
     <<"codesp", <<W("x"), SP, Code("a b"), SP, W("y")>>>>,
     <<"link", <<Link("note2", <<W("text")>>, "inline")>>>>,
     <<"linkmd", <<Link("note2.md", <<W("text")>>, "inline")>>>>,
+    <<"linksame", <<Link("note2", <<W("note2")>>, "inline")>>>>,     \* the text repeats the key (an autolink only for urls)
+    <<"linkcase", <<W("see"), SP, Link("todo", <<W("TODO")>>, "inline")>>>>,
     <<"linksub", <<Link("dir/note3", <<W("sub"), SP, W("text")>>, "inline")>>>>,
     <<"linkext", <<Link("https://example.com/a", <<W("site")>>, "ext")>>>>,
     <<"linkmail", <<Link("mailto:a@example.com", <<W("mail")>>, "ext")>>>>,
+    <<"linkftp", <<Link("ftp://host/dir/x.md", <<W("file")>>, "ext")>>>>,
+    <<"linkfile", <<Link("file:///tmp/a.md", <<W("local")>>, "ext")>>>>,
     <<"auto", <<Link("https://example.com/b", <<W("https://example.com/b")>>, "auto")>>>>,
     <<"wiki", <<Link("note4", <<W("note4")>>, "wiki")>>>>,
     <<"piped", <<Link("note5", <<W("shown")>>, "piped")>>>>,
@@ -66,6 +70,8 @@ Special == {
     <<"num", <<W("1."), SP, W("notlist")>>>>,
     <<"dash", <<W("-"), SP, W("notitem")>>>>,
     <<"plus", <<W("+"), SP, W("notitem")>>>>,
+    <<"pipesp", <<W("a"), SP, W("|"), SP, W("b")>>>>,
+    <<"dunder", <<W("__init__")>>>>,
     <<"gt", <<W(">"), SP, W("notquote")>>>>,
     <<"tick", <<W("`lit`")>>>>,
     <<"angle", <<W("<b>lit</b>")>>>>,
@@ -87,7 +93,7 @@ Special == {
     <<"unicode", <<W("naïve"), SP, W("日本語"), SP, W("😀")>>>>
 }
 
-Contexts == {"P", "H1", "H2", "item", "item2", "quote", "cell", "ol"}
+Contexts == {"P", "H1", "H2", "item", "item2", "quote", "cell", "cellb", "ol"}
 
 Wrap(ctx, t) ==
     CASE ctx = "P" -> <<B("P", 0, t, <<>>, <<>>, <<>>, "")>>
@@ -99,6 +105,8 @@ Wrap(ctx, t) ==
       [] ctx = "ol" -> <<B("OL", 0, <<>>, <<>>, << <<B("P", 0, <<W("one")>>, <<>>, <<>>, <<>>, "")>>,
                                                     <<B("P", 0, t, <<>>, <<>>, <<>>, "")>> >>, <<>>, "")>>
       [] ctx = "quote" -> <<B("Q", 0, <<>>, <<B("P", 0, t, <<>>, <<>>, <<>>, "")>>, <<>>, <<>>, "")>>
+      \* a body cell (the header row sizes the delimiter row and may take another path through the writer)
+      [] ctx = "cellb" -> <<B("Tbl", 0, <<>>, <<>>, <<>>, << << <<W("head")>>, <<W("h2")>> >>, << <<W("c1")>>, t >> >>, "")>>
       [] ctx = "cell" -> <<B("Tbl", 0, <<>>, <<>>, <<>>, << << <<W("head")>>, t >>, << <<W("c1")>>, <<W("c2")>> >> >>, "")>>
 
 NoBreak(t) == \A i \in 1..Len(t) : t[i].k \notin {"SB", "HB"} /\ (t[i].k = "Em" => \A j \in 1..Len(t[i].c) : t[i].c[j].k # "SB")
@@ -112,13 +120,12 @@ Init == doc = <<>> /\ tag = <<>> /\ done = FALSE
 
 One(ctx, e) ==
     /\ ~done
-    /\ (ctx \in {"cell", "H1", "H2"} => NoBreak(e[2]) \/ ctx \in {"H1", "H2"})
-    /\ (ctx = "cell" => NoBreak(e[2]))
+    /\ (ctx \in {"cell", "cellb"} => NoBreak(e[2]))
     /\ doc' = Wrap(ctx, e[2]) /\ tag' = <<ctx, e[1]>> /\ done' = TRUE
 
 Two(ctx, e, f) ==
     /\ ~done /\ Pairs
-    /\ (ctx = "cell" => NoBreak(e[2]) /\ NoBreak(f[2]))
+    /\ (ctx \in {"cell", "cellb"} => NoBreak(e[2]) /\ NoBreak(f[2]))
     /\ doc' = Wrap(ctx, e[2] \o <<SP>> \o f[2]) /\ tag' = <<ctx, e[1], f[1]>> /\ done' = TRUE
 
 Next == \/ \E ctx \in Contexts, e \in All : One(ctx, e)
